@@ -137,6 +137,14 @@ func (e *C05) point(ctx *core.Ctx, p int) {
 	}
 	s.Inject(eds)
 	if activePresent {
+		if ctx.Rand.Intn(3) == 0 {
+			// the active replica set is being deleted but still exists (deletionTimestamp set, a
+			// finalizer pending: foreground deletion): it has not "ceased to exist", the rule applies
+			dt := metav1.NewTime(now.Add(-5 * time.Second))
+			rsA.DeletionTimestamp = &dt
+			rsA.Finalizers = []string{"foregroundDeletion"}
+			ctx.Count("C05.points-with-terminating-active")
+		}
 		s.Inject(rsA)
 	}
 	s.Inject(rsB)
